@@ -253,7 +253,30 @@ func genExtract(r *rand.Rand) logqIn {
 	in := logqIn{Sel: []matcherIn{}, Stages: []stageIn{}, Queries: [][]stageIn{}, Limit: -1, Start: []int{1699999000, 0}, End: []int{1700009000, 0},
 		Caps: []CapsIn{{Label: []string{}, Line: []string{}}}}
 	n := 1 + r.Intn(4)
-	switch r.Intn(5) {
+	switch r.Intn(6) {
+	case 5: // regexp: named groups of the leftmost-first match
+		names := []string{"a", "b", "lvl"}[:1+r.Intn(3)]
+		var re *ReAST
+		for try := 0; ; try++ {
+			left := append([]string{}, names...)
+			re = genCapRe(r, 2+r.Intn(2), "ab=x ", &left)
+			if len(left) < len(names) { // at least one group was placed
+				break
+			}
+		}
+		if r.Intn(4) == 0 {
+			re = &ReAST{T: "cat", A: &ReAST{T: "bol"}, B: re}
+		}
+		raw, _ := json.Marshal(re)
+		for i := 0; i < n; i++ {
+			line := pick(r, []string{"a b", "ab", "a=b x", "xab", "b", "", "aab=", "x0a1", "ba ab", "=", "abab", "a", "xx", "b a=0"})
+			rec := MemRec{ID: i + 1, TS: []int{1700000001 + i, 0}, Line: B(line), Attrs: [][2][]int{}, Doc: [][2][]int{}}
+			if r.Intn(3) == 0 {
+				rec.Attrs = append(rec.Attrs, [2][]int{B("a"), B("old")})
+			}
+			in.Recs = append(in.Recs, rec)
+		}
+		in.Stages = []stageIn{{T: "regexp", Val: B(re.Text()), Re: raw}}
 	case 0, 1: // json
 		var docs []*jval
 		for i := 0; i < n; i++ {
